@@ -83,7 +83,11 @@ def case(draw, tier):
             script.append([t, [{"k": "i", "i": k, "op": {"k": "set", "v": draw(st.integers(1, 40))}} for k in idx]])
         twins = {"shape": shape, "n": n, "i": i, "j": j, "script": script, "fn": draw(st.sampled_from(["sum", "acc", "count"])),
                  "bias": draw(st.integers(0, 3)), "extra_arg": draw(st.booleans())}
-    return {"prog": prog, "perms": perms, "dup": dup, "twins": twins}
+    # resolved-type twins: one generic library implementation (nothing[O]) resolved to several output types with
+    # identical inputs and scalars - different resolved types must stay different nodes
+    rtypes = draw(st.lists(st.sampled_from(["TS[int]", "TS[bool]", "TS[str]", "TSS[int]", "TSD[int,TS[int]]"]), min_size=2, max_size=4)) \
+        if draw(st.integers(0, 3)) == 0 else None
+    return {"prog": prog, "perms": perms, "dup": dup, "twins": twins, "rtypes": rtypes}
 
 
 def strategy(tier):
@@ -259,6 +263,23 @@ def check(case, ctx) -> Result:
             if res.violations:
                 break
         res.labels.append("projection_twins")
+    # ---- (4) one generic implementation resolved to several output types
+    rt = case.get("rtypes")
+    if rt and not res.violations:
+        for order in (list(range(len(rt))), list(reversed(range(len(rt))))):
+            stmts_ = [{"id": "TS0", "op": "src", "schema": "TS[int]", "script": [[prog["start"], [{"k": "set", "v": 1}]]]}]
+            for i in order:
+                stmts_.append({"id": f"N{i}", "op": "op", "name": "nothing", "args": [], "has_out": True, "out": rt[i]})
+            for i in order:
+                stmts_.append({"id": f"RN{i}", "op": "node", "ins": [f"N{i}", "TS0"], "valid": []})
+            r = _run(ctx, {"start": prog["start"], "end": prog["end"], "stmts": stmts_}, res, f"resolved-type twins {rt} order {order}")
+            if r is None:
+                return res
+            n_nothing = sum(1 for n in r["graph"]["nodes"] if n.get("n") == "nothing")
+            if not (len(set(rt)) <= n_nothing <= len(rt)):
+                res.violations.append(Viol("resolved_type_twins_merged", f"nothing[O] wired for O = {[rt[i] for i in order]}: the compiled graph has {n_nothing} such node(s) for {len(set(rt))} distinct resolved types", {"order": order != sorted(order)}))
+                break
+        res.labels.append("resolved_type_twins")
     res.nontrivial = moved >= 2 and near_ok
     res.summary = {"orders": orders[:2], "dup": dup, "nodes": base[1] if base else None}
     return res
